@@ -33,6 +33,7 @@ KINDS = ("batch_cells_pandas", "batch_space_pandas", "batch_cells_module", "batc
 
 KEY_PANDAS_CELLS = "batch-cells-pandas-unchecked-name"     # duplicate names / a name a SUB space uses: found half-way
 KEY_PANDAS_SPACE = "batch-space-pandas-space-first"        # the space is created before the names are looked at
+KEY_COPY = "copy-space-cells-named-like-global"           # Space.copy: a cells named like a model-level reference stops the copy half-way
 KEY_MODULE = "batch-cells-module-half-way"                 # the functions of a module are not looked at before the first is created
 
 FUNC_KINDS = {
@@ -206,8 +207,20 @@ def classify(live, op, result, before, after):
             names = resolved_names(op[3], op[4])
             parent_ns = (set(p for p in before["spaces"] if "." not in p) | mrefs) if op[1] == "-" \
                 else _names_of(before["spaces"][op[1]], mrefs)
+            parent_ns = parent_ns | {op[2]}       # ... in which the new space itself is by then
             if any(not valid_name(n) or n in parent_ns for n in names) or len(set(names)) < len(names):
                 return KEY_PANDAS_SPACE
+            return None
+        if kind == "copy_space":
+            # the copy is created, then its members one by one; a cells of the source (or of a space below it) named
+            # like a model-level reference - which the model accepts to be set while such a cells exists - cannot be
+            # created in the copy
+            path = op[3] if op[2] == "-" else op[2] + "." + str(op[3])
+            if op[3] is None or path in before["spaces"] or path not in after["spaces"]:
+                return None
+            for q, sd in before["spaces"].items():
+                if (q == op[1] or q.startswith(op[1] + ".")) and set(sd["cells"]) & mrefs:
+                    return KEY_COPY
             return None
         if kind in ("batch_cells_module", "batch_space_module"):
             if kind == "batch_cells_module":
